@@ -116,7 +116,7 @@ func cfgNFA(fn *ssa.Function, atoms func(ssa.Instruction) []olAtom) *olNFA {
 				n.accept[cur] = true
 			}
 		}
-		for _, s := range b.Succs {
+		for _, s := range liveSuccs(b) {
 			n.eps[cur] = append(n.eps[cur], entry[s])
 		}
 	}
